@@ -164,17 +164,28 @@ example : remark (-1) INVALID_INDEX_64 [-1, 0, 2] = [INVALID_INDEX_64, 0, 2] := 
 
 /-- **Functional correctness of `ordered_map_valid_indexed_stream`.** For a well-formed indexed source (offsets from 0,
     non-decreasing, ending at the number of bytes), every chunk size ≥ 1, every marker, every `value_factor` whose
-    value buffer `chunksize * value_factor` can hold the longest entry, and every map whose non-marker entries are row
-    numbers of the source in non-decreasing order: the stream terminates within its fuel with no out-of-bounds access
-    and without the D5 `ValueError`, and the destination's `indices` and `values` are exactly the stored form
-    (offsets, concatenated bytes) of the specified column of entries — `[]` where the map holds the marker. -/
+    value buffer `chunksize * value_factor` can hold every entry the map refers to, and every map whose non-marker
+    entries are row numbers of the source in non-decreasing order: the stream terminates within its fuel with no
+    out-of-bounds access and without the D5 `ValueError`, and the destination's `indices` and `values` are exactly the
+    stored form (offsets, concatenated bytes) of the specified column of entries — `[]` where the map holds the marker. -/
 theorem map_indexed_stream_eq {β} (indices : List Int) (values : List β) (m : List Int) (inv : Int) (cs vf : Nat)
+    (hok : IndexedOK indices values) (hcs : 1 ≤ cs)
+    (hr : InRange (entries indices values).length m inv) (hm : ValidMonotone m inv)
+    (hcap : ∀ (r : Nat) (k : Int) (x : List β), m[r]? = some k → k ≠ inv →
+      (entries indices values)[k.toNat]? = some x → x.length ≤ cs * vf) :
+    ∃ out, orderedMapValidIndexedStream indices values m inv cs vf = .ok out ∧
+      mapIndexedSpec indices values inv m = some out :=
+  indexed_stream_spec indices values m inv cs vf hok hcs hr hm hcap
+
+/-- the property's own phrasing: the value buffer can hold the longest entry of the source -/
+theorem map_indexed_stream_eq_longest {β} (indices : List Int) (values : List β) (m : List Int) (inv : Int) (cs vf : Nat)
     (hok : IndexedOK indices values) (hcs : 1 ≤ cs)
     (hr : InRange (entries indices values).length m inv) (hm : ValidMonotone m inv)
     (hcap : ∀ e ∈ entries indices values, e.length ≤ cs * vf) :
     ∃ out, orderedMapValidIndexedStream indices values m inv cs vf = .ok out ∧
       mapIndexedSpec indices values inv m = some out :=
-  indexed_stream_spec indices values m inv cs vf hok hcs hr hm hcap
+  indexed_stream_spec indices values m inv cs vf hok hcs hr hm
+    (fun _ _ x _ _ hx => hcap x (List.mem_of_getElem? hx))
 
 /-- **Chunk size and value-buffer size are unobservable** for the indexed stream. -/
 theorem indexed_chunk_unobservable {β} (indices : List Int) (values : List β) (m : List Int) (inv : Int)
@@ -183,32 +194,50 @@ theorem indexed_chunk_unobservable {β} (indices : List Int) (values : List β) 
     (hcap : ∀ e ∈ entries indices values, e.length ≤ cs * vf)
     (hcap' : ∀ e ∈ entries indices values, e.length ≤ cs' * vf') :
     orderedMapValidIndexedStream indices values m inv cs vf = orderedMapValidIndexedStream indices values m inv cs' vf' := by
-  obtain ⟨out, h1, h2⟩ := indexed_stream_spec indices values m inv cs vf hok hcs hr hm hcap
-  obtain ⟨out', h1', h2'⟩ := indexed_stream_spec indices values m inv cs' vf' hok hcs' hr hm hcap'
+  obtain ⟨out, h1, h2⟩ := map_indexed_stream_eq_longest indices values m inv cs vf hok hcs hr hm hcap
+  obtain ⟨out', h1', h2'⟩ := map_indexed_stream_eq_longest indices values m inv cs' vf' hok hcs' hr hm hcap'
   rw [h2] at h2'
   cases h2'
   rw [h1, h1']
 
-/-- D5, as repaired: a partial call that neither consumes a map entry nor asks for the next value sub-chunk ends the
-    stream with a `ValueError` — the driver never re-issues a call that cannot make progress.
-    (`_partial`: the full statement would be
-      `(∃ r k, m[r]? = some k ∧ k ≠ inv ∧ cs * vf < |entry k|) → ∃ msg, stream … = .error (.valueError msg)`,
-     i.e. that this is the *only* outcome for an over-long mapped entry; it is not proved — it needs the invariant of
-     `map_indexed_stream_eq` re-established for the prefix before the first over-long entry. The correspondence run
-     compares exactly this error on every such generated case, and `d5_witness` below evaluates the design-time witness.) -/
-theorem no_progress_is_value_error_partial {β} (map_ : List Int) (smEnd : Nat) (indices_ : List Int) (values : List β)
-    (subs : List (Nat × Nat)) (mvStart : Int) (capI capV : Nat) (inv : Int) (w : IW β) (p : IP β)
-    (hcall : indexedPartial map_ smEnd indices_ w.sc.1 w.sc.2 w.vals mvStart capI capV inv w.sm w.ri w.rv w.accum = .ok p)
-    (hsame : p.sm = w.sm) (hneed : p.need = false) :
-    innerBody map_ smEnd indices_ values subs mvStart capI capV inv w
-      = .error (.valueError "entry does not fit the value buffer") := by
-  simp [innerBody, hcall, hsame, hneed]
+/-- **Never spins, never reads out of bounds (D5 as repaired, in full).** On a well-formed source and an ordered in-range
+    map, for every chunk size ≥ 1, marker and value factor the indexed stream has exactly two outcomes: every mapped
+    entry fits the value buffer and the result is the specified column; or some mapped entry is longer than
+    `chunksize * value_factor` and the result is the `ValueError` — never `outOfFuel`, never an index error. -/
+theorem indexed_stream_terminates {β} (indices : List Int) (values : List β) (m : List Int) (inv : Int) (cs vf : Nat)
+    (hok : IndexedOK indices values) (hcs : 1 ≤ cs)
+    (hr : InRange (entries indices values).length m inv) (hm : ValidMonotone m inv) :
+    (∃ out, orderedMapValidIndexedStream indices values m inv cs vf = .ok out ∧
+      mapIndexedSpec indices values inv m = some out) ∨
+    (orderedMapValidIndexedStream indices values m inv cs vf = .error (.valueError "entry does not fit the value buffer") ∧
+      ∃ (r : Nat) (k : Int) (x : List β), m[r]? = some k ∧ k ≠ inv ∧ (entries indices values)[k.toNat]? = some x ∧
+        cs * vf < x.length) := by
+  rcases indexed_stream_total indices values m inv cs vf hok hcs hr hm with
+    ⟨out, es, hrun, hspec, hout, _⟩ | ⟨e, hrun, herr, p, k, x, hpk, hki, _, hent, hbig⟩
+  · exact Or.inl ⟨out, hrun, by simp [mapIndexedSpec, hspec, hout]⟩
+  · exact Or.inr ⟨by rw [hrun, herr], p, k, x, hpk, hki, hent, hbig⟩
+
+/-- a mapped entry longer than the value buffer always ends the stream with the clear error -/
+theorem oversize_entry_clear_error {β} (indices : List Int) (values : List β) (m : List Int) (inv : Int) (cs vf : Nat)
+    (hok : IndexedOK indices values) (hcs : 1 ≤ cs)
+    (hr : InRange (entries indices values).length m inv) (hm : ValidMonotone m inv)
+    (r : Nat) (k : Int) (x : List β) (hk : m[r]? = some k) (hki : k ≠ inv)
+    (hx : (entries indices values)[k.toNat]? = some x) (hbig : cs * vf < x.length) :
+    orderedMapValidIndexedStream indices values m inv cs vf
+      = .error (.valueError "entry does not fit the value buffer") :=
+  indexed_stream_oversize indices values m inv cs vf hok hcs hr hm r k x hk hki hx hbig
 
 /-- the design-time D5 witness (source `["abcdefghij","b"]`, map `[0,1]`, chunksize 2, value_factor 2): a clear error,
     not `outOfFuel` -/
 theorem d5_witness :
     orderedMapValidIndexedStream [0, 10, 11] [97, 98, 99, 100, 101, 102, 103, 104, 105, 106, 98] [0, 1] (-1) 2 2
       = .error (.valueError "entry does not fit the value buffer") := by rfl
+
+/-- the hypotheses of `oversize_entry_clear_error` on that witness: row 0 maps to a 10-byte entry, the buffer has 4 -/
+example : IndexedOK [0, 10, 11] [97, 98, 99, 100, 101, 102, 103, 104, 105, 106, (98 : Int)] ∧
+    (entries [0, 10, 11] [97, 98, 99, 100, 101, 102, 103, 104, 105, 106, (98 : Int)])[(0 : Int).toNat]?
+      = some [97, 98, 99, 100, 101, 102, 103, 104, 105, 106] ∧ 2 * 2 < 10 :=
+  ⟨by unfold IndexedOK; decide, by decide, by decide⟩
 
 /-! ## the non-streaming helpers give the same answer -/
 
@@ -270,7 +299,7 @@ theorem nonstream_agree_indexed {β} (indices : List Int) (values : List β) (m 
     (hcap : ∀ e ∈ entries indices values, e.length ≤ cs * vf) :
     orderedMapValidIndexedStream indices values m inv cs vf
       = safeMapIndexedValues indices values m (m.map (fun k => k != inv)) [] := by
-  obtain ⟨o1, a1, b1⟩ := indexed_stream_spec indices values m inv cs vf hok hcs hr hm hcap
+  obtain ⟨o1, a1, b1⟩ := map_indexed_stream_eq_longest indices values m inv cs vf hok hcs hr hm hcap
   obtain ⟨o2, a2, b2⟩ := safeMapIndexedValues_mapSpec indices values m inv hok hr
   rw [b1] at b2
   cases b2
